@@ -615,6 +615,8 @@ func c19Gen(r *Run) {
 			}
 		}
 	}
+	// the t-digest behind the percentile aggregation against the model Grip.C19.Digest (c19_digest.go)
+	c19DigestGen(r)
 }
 
 func c19Bucket(n int) string {
@@ -637,6 +639,10 @@ func c19Replay(r *Run, ops []map[string]interface{}) {
 		}
 	}()
 	for _, op := range ops {
+		if op["op"] == "digest" {
+			c19DigestRun(r, op)
+			continue
+		}
 		if op["op"] != "agg" {
 			r.Emit(op, map[string]interface{}{"bad": "unknown op"})
 			continue
